@@ -98,10 +98,44 @@ def gen_board(rng, i):
     }
 
 
-AUCTION_STYLES = ('allpass', 'short', 'competitive', 'long', 'slam')
+AUCTION_STYLES = ('allpass', 'short', 'competitive', 'long', 'slam', 'target', 'target')
+
+
+def gen_target_auction(rng, dealer):
+    """A short auction that ends in a contract drawn UNIFORMLY from the 35 x 3 cells (level and
+    denomination x undoubled / doubled / redoubled), declared by a uniformly drawn seat: the
+    ordinary styles seldom leave the one- and two-level, so the scoring and the doubling state of
+    the rarer contracts would hardly ever reach the log."""
+    a = rb.Auction(dealer)
+    calls = []
+    declarer_offset = rng.randrange(4)
+    for _ in range(declarer_offset):
+        a.apply('Pass')
+        calls.append('Pass')
+    bid = rng.choice(rb.BIDS)
+    doubling = rng.choice(('', 'X', 'XX'))
+    a.apply(bid)
+    calls.append(bid)
+    if doubling:
+        # doubled by the left-hand opponent, or by the right-hand one after two passes
+        if rng.random() < 0.5:
+            seq = ['X']
+        else:
+            seq = ['Pass', 'Pass', 'X']
+        if doubling == 'XX':
+            seq += ['XX'] if rng.random() < 0.5 else ['Pass', 'Pass', 'XX']
+        for c in seq:
+            a.apply(c)
+            calls.append(c)
+    while not a.done:
+        a.apply('Pass')
+        calls.append('Pass')
+    return calls, a
 
 
 def gen_auction(rng, dealer, style):
+    if style == 'target':
+        return gen_target_auction(rng, dealer)
     a = rb.Auction(dealer)
     calls = []
     opened = False
